@@ -117,18 +117,35 @@ def gen_fields(rng, nm, obj_cfg, prefix):
 def gen_leaf(rng, nm, parent_cfg):
     k = rng.random()
     cfg = pick_cfg(rng, 0.45, parent_cfg)
+    targets = getattr(nm, "targets", None)
+    if targets is None:
+        targets = nm.targets = []
+    if targets and rng.random() < 0.15:
+        # a ref: its accessor is gated by the REF's own cfg and the blocks enclosing the REF, never by anything on the
+        # target's path.  Register refs override the access to WO so that they add no read_all_registers statement
+        # (the model attaches only the accessor to a ref); block refs do not compile (D9).
+        kind, tname = rng.choice(targets)
+        ov = {"kind": kind, "address": nm.address()}
+        if kind == "register":
+            ov["access"] = "WO"
+        return adef.mk_ref(nm.fresh("Q"), tname, ov, cfg=pick_cfg(rng, 0.35, parent_cfg))
     if k < 0.6:
-        return adef.mk_register(nm.fresh("R"), nm.address(), 8, gen_fields(rng, nm, cfg, "x"), cfg=cfg,
-                                access=rng.choice([None, None, "RW", "RO"]))
+        r = adef.mk_register(nm.fresh("R"), nm.address(), 8, gen_fields(rng, nm, cfg, "x"), cfg=cfg,
+                             access=rng.choice([None, None, "RW", "RO"]))
+        targets.append(("register", r["name"]))
+        return r
     if k < 0.85:
         form = rng.random()
         if form < 0.25:
-            return adef.mk_command(nm.fresh("C"), nm.address(), cfg=cfg, basic=True)
-        si = 8 if form < 0.8 else None
-        so = 8 if form > 0.45 else None
-        return adef.mk_command(nm.fresh("C"), nm.address(), size_bits_in=si, size_bits_out=so,
-                               fields_in=gen_fields(rng, nm, cfg, "y") if si else None,
-                               fields_out=gen_fields(rng, nm, cfg, "z") if so else None, cfg=cfg)
+            c = adef.mk_command(nm.fresh("C"), nm.address(), cfg=cfg, basic=True)
+        else:
+            si = 8 if form < 0.8 else None
+            so = 8 if form > 0.45 else None
+            c = adef.mk_command(nm.fresh("C"), nm.address(), size_bits_in=si, size_bits_out=so,
+                                fields_in=gen_fields(rng, nm, cfg, "y") if si else None,
+                                fields_out=gen_fields(rng, nm, cfg, "z") if so else None, cfg=cfg)
+        targets.append(("command", c["name"]))
+        return c
     return adef.mk_buffer(nm.fresh("F"), nm.address(), cfg=cfg, access=rng.choice([None, "RW", "RO", "WO"]))
 
 
